@@ -431,8 +431,8 @@ func ruleC11Rest(c *Ctx) {
 		R := NewRenderer(fn)
 		sites := CallsTo(fn, fCtl+"DeleteSnapshot")
 		lr := fCtl + "ListReplicas($0.c)"
-		c.Guard(rule, fn, sites, "delete snapshot", isUnlockCall,
-			Need{Desc: "controller write lock taken", Instr: isWLockCall},
+		c.Guard(rule, fn, sites, "delete snapshot", lockOrUnlock,
+			needWLock("controller write lock taken"),
 			atom("request body parsed", isNilAtom("(*github.com/rancher/go-rancher/api.ApiContext).Read(github.com/rancher/go-rancher/api.GetApiContext($2),&var(input))")),
 			atom("all RF replicas are RW", eqAtom("$0.c.ReplicationFactor", `count{+"RW" -`+lr+`[*].Mode ==0}`)),
 			atom("checkpoint set", neAtom(`""`, "$0.c.Checkpoint")),
